@@ -22,11 +22,13 @@ from harness.common import VERIF, run_driver
 
 from insights.core import dr
 from insights.core.context import ExecutionContext, HostContext, JBossContext, SerializedArchiveContext
-from insights.core.exceptions import ContentException, SkipComponent
-from insights.core.plugins import datasource, is_datasource
+from insights.core.exceptions import (BlacklistedSpec, CalledProcessError, ContentException, SkipComponent,
+                                      TimeoutException)
+from insights.core.plugins import datasource, is_datasource, parser
 from insights.core.spec_factory import RegistryPoint, SpecDescriptor, SpecSet, first_of
 
-OUTCOMES = ["v", "n", "skip", "content", "crash"]
+OUTCOMES = ["v", "n", "skip", "content", "crash", "calledproc", "timeout", "blacklisted"]
+F_NONE = "none-result-is-a-value"
 F_FREE = "context-free-implementation"
 F_REACH = "context-through-registry-point"
 
@@ -103,9 +105,12 @@ class SWorld(object):
             self.comps[i] = self.ctxs[i]
         self.root = type("Root_" + tag, (SpecSet,), dict(("p%d" % k, RegistryPoint()) for k in range(self.npoints)))
         self.points = []
+        self.parsers = []
+        self.parser_calls = []          # (point id, argument is None)
         for k in range(self.npoints):
             self.comps[self.nctx + k] = getattr(self.root, "p%d" % k)
             self.points.append(self.nctx + k)
+            self._parser(self.nctx + k)
         self.classes = []
         self.decls = {}     # cid -> (items text for the driver)
         self.deco = {}      # cid -> the component type used as decorator
@@ -114,6 +119,17 @@ class SWorld(object):
         self.ids = dict((c, i) for i, c in self.comps.items())
         while define_all and self.defined < len(case["classes"]):
             self.define_next()
+
+    def _parser(self, pcid):
+        """a real @parser consuming the registry point: it must never be handed None"""
+        world = self
+
+        def fn(value):
+            world.parser_calls.append((pcid, value is None))
+            return 1
+        fn.__name__ = "parse%d_%s" % (pcid, self.tag)
+        fn.__qualname__ = fn.__name__
+        self.parsers.append(parser(self.comps[pcid])(fn))
 
     def define_next(self):
         """create the next spec-set class of the history through the real metaclass; returns the new component ids"""
@@ -124,12 +140,16 @@ class SWorld(object):
         for e in cd["entries"]:
             ns["p%d" % e["name"]] = RegistryPoint() if e["kind"] == "point" else self._make(e, self.tag)
         parent = self.root if cd["parent"] < 0 else self.classes[cd["parent"]]
-        cls = type("I%d_%s" % (ci, self.tag), (parent,), ns)
+        # REDEFINITION under the same name (module reload, re-run cell, type() with a fixed name): same module, class
+        # name and spec names as an earlier class, so dr.get_name() of the implementations is identical
+        cname = "I%d_%s" % (cd["same_name_as"] if cd.get("same_name_as") is not None else ci, self.tag)
+        cls = type(cname, (parent,), ns)
         self.classes.append(cls)
         for e in cd["entries"]:
             if e["kind"] == "point":
                 self.comps[e["cid"]] = getattr(cls, "p%d" % e["name"])
                 self.points.append(e["cid"])
+                self._parser(e["cid"])
         self.defined += 1
         self.ids = dict((c, i) for i, c in self.comps.items())
         return sorted(set(self.decls) - before)
@@ -153,6 +173,12 @@ class SWorld(object):
                 raise SkipComponent("skip %d" % cid)
             if o == "content":
                 raise ContentException("content %d" % cid)
+            if o == "calledproc":      # what ctx.shell_out / subproc.call raise on a non-zero exit
+                raise CalledProcessError(1, "cmd%d" % cid, "output")
+            if o == "timeout":
+                raise TimeoutException("timeout %d" % cid)
+            if o == "blacklisted":
+                raise BlacklistedSpec()
             raise Crash("crash %d" % cid)
         fn.__name__ = "d%d_%s" % (cid, tag)
         fn.__qualname__ = fn.__name__
@@ -265,11 +291,14 @@ class SWorld(object):
         g = {}
         for p in self.points:
             g.update(dr.get_dependency_graph(self.comps[p]))
+        for q in self.parsers:
+            g.update(dr.get_dependency_graph(q))
         return g
 
     def run(self, active, outcome, mode):
         self.outcome = dict(outcome)
         self.calls = []
+        self.parser_calls = []
         g = self.graph()
         order = dr.run_order(dict((k, set(v)) for k, v in g.items()))
         b = dr.Broker()
@@ -456,6 +485,21 @@ def oracle(report, world, case, active, b, err, desc):
             if req_ok and last["cid"] not in called:
                 report.failure("spec %s: the latest implementation declared for context %d (%d) has its requirements met but was not executed"
                                % (sp, c, last["cid"]), desc, finding=fid)
+        # "yields nothing" includes returning None: the spec must then be ABSENT (`point not in broker`), not present
+        # with the value None, and no parser may be handed None  (presence is checked, never broker.get)
+        none_fid = fid
+        if fid is None and last is not None and (
+                world.outcome.get(last["cid"]) == "n" or
+                last["kind"] == "firstof" and "n" in (world.outcome.get(last["helper"]), world.outcome.get(last["helper2"]))):
+            none_fid = F_NONE           # predicate on the input: the latest implementation (or what first_of passes on) returns None
+        for p in fam["points"]:
+            point = world.comps[p]
+            if point in b.instances and b.instances[point] is None:
+                report.failure("spec %s, registry point %d: PRESENT in the broker with the value None (the latest implementation for "
+                               "context %d%s returned None = yielded nothing): it must be absent" % (
+                                   sp, p, c, (" (%d)" % last["cid"]) if last else ""), desc, finding=none_fid)
+            if any(pc == p and isnone for pc, isnone in world.parser_calls):
+                report.failure("spec %s, registry point %d: a parser was invoked with None" % (sp, p), desc, finding=none_fid)
         # the value seen at EVERY level's registry point
         for p in fam["points"]:
             point = world.comps[p]
@@ -618,7 +662,11 @@ def gen_case(rng, quick, allow_findings=True):
             entries.append(e)
             if parent < 0 and name < npoints and e["kind"] != "point" and e.get("dstype") != "fake":
                 wired_names.add(name)
-        classes.append({"parent": parent, "entries": entries})
+        cd = {"parent": parent, "entries": entries}
+        same = [j for j in range(ci) if classes[j]["parent"] == parent and classes[j].get("same_name_as") is None]
+        if same and rng.random() < 0.2:
+            cd["same_name_as"] = rng.choice(same)
+        classes.append(cd)
     return {"nctx": nctx, "serialized": ctx_special == "serialized", "ctx_special": ctx_special, "ctx_parent": ctx_parent,
             "npoints": npoints, "classes": classes, "focus": focus, "ds_mode": ds_mode}
 
@@ -769,6 +817,10 @@ def check_world(chk, report, rng, case, lines, impl, cases, runs_per_ctx):
         if case.get("ctx_special"):
             chk.count("history:contexts-" + case["ctx_special"])
         for cd in case["classes"]:
+            if cd.get("same_name_as") is not None:
+                other = case["classes"][cd["same_name_as"]]
+                shared = set(e["name"] for e in cd["entries"]) & set(e["name"] for e in other["entries"])
+                chk.count("class:REDEFINITION-under-the-same-module-and-class-name" + (":same-spec-names" if shared else ""))
             chk.count("class:" + ("extends-root" if cd["parent"] < 0 else "extends-earlier-class"))
             for e in cd["entries"]:
                 if e["kind"] != "point":
@@ -1023,6 +1075,10 @@ def run(chk):
                 "(chains of up to 4 re-declarations, gaps in the chain, new top-level points in subclasses) and implementations are "
                 "attached at different levels in both registration orders, for the same and for different contexts; the parents "
                 "chain handed to the model is read off the real cls.__mro__; the value is checked at EVERY level's registry point; "
+                "20% of the later classes REDEFINE an earlier class under the same module and class name (identical dr.get_name of "
+                "the implementations, different objects); outcomes per implementation: value, None, SkipComponent, ContentException, "
+                "CalledProcessError, TimeoutException, BlacklistedSpec, generic exception; a real @parser consumes every registry "
+                "point and must never be handed None; presence in the broker is checked, not broker.get; "
                 "implementations are decorated with plain @datasource, SPECIALISED subclasses of datasource (one and two levels "
                 "deep, extra class attributes: every / the newest / older / random implementations of a spec), the factory helper "
                 "first_of, and rarely a non-datasource component type merely NAMED 'datasource' (must not be wired); the model's "
@@ -1066,7 +1122,7 @@ def run(chk):
     ]
     chk.lean()
     # ---- witnesses of the known findings (corpus first)
-    for fid in (F_FREE, F_REACH):
+    for fid in (F_FREE, F_REACH, F_NONE):
         w = load_witness(fid)
         world, b, found, _ = run_script(w)
         chk.witnesses.append({"id": fid, "reproduces": bool(found), "oracle": [d for d, _ in found][:2]})
